@@ -73,6 +73,24 @@ func (d *dumper) val(v reflect.Value, depth int) {
 		d.val(v.Elem(), depth+1)
 	case reflect.Struct:
 		t := v.Type()
+		if d.o.ExportedOnly {
+			// a struct that shows nothing but is a byte container (util.Buffer held by value: error data,
+			// IPv4 options): what it holds is its observable value
+			exported := 0
+			for i := 0; i < t.NumField(); i++ {
+				if t.Field(i).PkgPath == "" && !t.Field(i).Anonymous {
+					exported++
+				}
+			}
+			if exported == 0 {
+				c := reflect.New(t).Elem()
+				c.Set(v)
+				if bb, ok := c.Addr().Interface().(interface{ Bytes() []byte }); ok {
+					fmt.Fprintf(d.b, "%s{bytes:x%x}", t.Name(), bb.Bytes())
+					return
+				}
+			}
+		}
 		d.b.WriteString(t.Name() + "{")
 		for i := 0; i < t.NumField(); i++ {
 			name := t.Field(i).Name
